@@ -721,8 +721,10 @@ def _is_zero_for_constant(ctx, bound):
 def _is_the_constant(e):
     if isinstance(e, ast.Subscript) and isinstance(e.value, ast.Call) and call_name(e.value) == 'unique' and const_value(e.slice) == 0:
         return True
-    if isinstance(e, ast.Call) and call_name(e) in ('min', 'max', 'mean', 'median') and e.args and isinstance(e.args[0], ast.Name):
+    if isinstance(e, ast.Call) and call_name(e) in ('min', 'max', 'median', 'amin', 'amax') and e.args and isinstance(e.args[0], ast.Name):
         return True
+    if isinstance(e, ast.Call) and call_name(e) in ('mean', 'average', 'sum', 'nanmean'):
+        return False   # the floating-point mean of n copies of c is not c itself (np.mean([0.1] * 20) == 0.10000000000000002)
     if isinstance(e, ast.BinOp) and isinstance(e.op, ast.Mult) and isinstance(e.left, ast.List) and len(e.left.elts) == 1:
         inner = e.left.elts[0]
         return True if isinstance(inner, ast.Name) else _is_the_constant(inner)
